@@ -163,6 +163,7 @@ fn one_run(prop: Prop, base_seed: u64, index: u64, long: bool, lattice: bool, kn
         Boot::Start(..) => stats.hit("boot_start_constructor"),
         Boot::Text(_, r) => stats.hit(&format!("boot_text_{}", r.name())),
     }
+    let readopted_before = stats.counters.get("readopted_after_foreign_divergence").copied().unwrap_or(0);
     let mut cx = Ctx { prop, known, stats, step: 0 };
     let mut w = match exec::boot(&boot, &mut cx) {
         Ok(w) => w,
@@ -197,7 +198,17 @@ fn one_run(prop: Prop, base_seed: u64, index: u64, long: bool, lattice: bool, kn
             (trace, None)
         }
         Err(Stop::BootRejected) => (trace, None),
-        Err(Stop::Invalid(e)) => panic!("generator produced an invalid op: {} in {:?}", e, trace.ops.last()),
+        Err(Stop::Invalid(e)) => {
+            // can only happen after a re-adopted (diverged) state, e.g. a clock outside the setter's domain:
+            // the run ends like a foreign abort, it is not a violation of this property. Without a preceding
+            // divergence it is a harness bug and stays loud.
+            if cx.stats.counters.get("readopted_after_foreign_divergence").copied().unwrap_or(0) == readopted_before {
+                panic!("generator produced an invalid op: {} in {:?}", e, trace.ops.last());
+            }
+            cx.stats.foreign_aborts += 1;
+            cx.stats.hit("generated_op_not_applicable_after_divergence");
+            (trace, None)
+        }
     }
 }
 
